@@ -13,7 +13,12 @@ Bounded-exhaustive exploration of the REAL collectors:
 * every truncation length of a genuine history file as the corrupt member;
 * every spelling of the limit accepted by ``to_history_tuple`` (direct, ``size=`` and ``$XONSH_HISTORY_SIZE``);
 * SQLite backend: ``SqliteHistory.run_gc(size=(N, 'commands'))`` on every table of <= 5 rows x tie pattern
-  x insertion order x N in 0..6.
+  x insertion order x N in 0..6;
+* (xv/c14_live.py) histories of a running session: every short sequence of {append+flush, external
+  delete / truncation of the open session's file, GC pass} on a real JsonHistory - the open session's
+  file is never collected nor counted as closed, a recreated file is locked like a fresh session's;
+* (xv/c14_live.py) the real GC *thread* driven through its wait_for_shell handshake while
+  ``$XONSH_HISTORY_SIZE`` changes L1 -> L2: the limit in force when the collector acts decides.
 
 The oracle is the ~30-line reference in ``accept_sets`` written from the property statement.
 
@@ -179,8 +184,11 @@ class _VTime:
     def time(self):
         return self.now
 
+    hook = None  # set by the start-up handshake part: decides when a wait inside xonsh ends
+
     def sleep(self, _s):
-        pass
+        if self.hook is not None:
+            self.hook()
 
 
 class _VUptime:
@@ -211,7 +219,10 @@ def _init_worker():
     hj.uptime = _W.up
     hj.print = lambda *a, **k: _W.printed.append(" ".join(str(x) for x in a))
 
-    class SyncJsonGC(hj.JsonHistoryGC):
+    real_gc = getattr(hj, "_xv_real_gc", None) or hj.JsonHistoryGC
+    hj._xv_real_gc = real_gc
+
+    class SyncJsonGC(real_gc):
         def start(self):  # run the thread body in the caller: deterministic, exceptions reach the harness
             self.run()
 
@@ -761,15 +772,19 @@ def _check_sqlite(item):
 
 
 def _dispatch(work):
+    from . import c14_live
+
     kind, item = work
-    return {"coll": _check_collection, "trunc": _check_truncations, "spell": _check_spellings, "sqlite": _check_sqlite}[kind](item)
+    fn = {"coll": _check_collection, "trunc": _check_truncations, "spell": _check_spellings, "sqlite": _check_sqlite,
+          "live": c14_live.check_sequences, "startup": c14_live.check_startup}[kind]  # fmt: skip
+    return fn(item)
 
 
 def _merge(ctx, results, totals):
     for r in results:
         totals["evals"] += r["evals"]
         totals["nontrivial"] += r["nontrivial"]
-        for k in ("refusals", "deletions", "spellings"):
+        for k in ("refusals", "deletions", "spellings", "live_sequences", "startup_runs"):
             totals[k] = totals.get(k, 0) + r.get(k, 0)
         for v in r["viols"]:
             n = v.pop("n", 1)
@@ -788,6 +803,7 @@ def run(ctx):
         masks_mode = lambda n: "all" if n <= 4 else "distinct"  # noqa: E731
         narrow_corrupt = lambda n: n >= 5  # noqa: E731
         sqlite_all_orders = 5
+        live_depths, startup_nmax = (4, 4), 3
     else:
         nmax = 4
         _CFG = {n: {"boots": "all", "pads": (0, 1), "rich": True} for n in range(0, 3)}
@@ -797,6 +813,12 @@ def run(ctx):
         masks_mode = lambda n: "all" if n <= 3 else "distinct"  # noqa: E731
         narrow_corrupt = lambda n: n >= 3  # noqa: E731
         sqlite_all_orders = 4
+        live_depths, startup_nmax = (3, 4), 2
+    from . import c14_live
+
+    seqs = c14_live.sequences(*live_depths)
+    live_items = [seqs[i : i + 60] for i in range(0, len(seqs), 60)]
+    st_items = c14_live.startup_collections(startup_nmax)
     colls = list(_collections(nmax, max_corrupt, masks_mode, narrow_corrupt))
     sq_items = []
     for n in range(0, 6):
@@ -805,9 +827,15 @@ def run(ctx):
             for lo in range(0, len(orders), 12):
                 sq_items.append((n, mask, orders[lo : lo + 12]))
     tr_items = _trunc_items()
-    ctx.log(f"{len(colls)} file collections (<= {nmax} files), {len(tr_items)} truncation ranges, {len(_MULT)} unit families, {len(sq_items)} sqlite table batches")
+    ctx.log(
+        f"{len(colls)} file collections (<= {nmax} files), {len(tr_items)} truncation ranges, {len(_MULT)} unit families, {len(sq_items)} sqlite table batches, "
+        f"{len(seqs)} live-session sequences, {len(st_items)} start-up collections"
+    )
     # one heterogeneous work list -> one set of workers (each loads one xonsh session)
-    work = [("sqlite", it) for it in sq_items] + [("spell", c) for c in _MULT] + [("trunc", it) for it in tr_items] + [("coll", it) for it in colls]
+    work = (
+        [("sqlite", it) for it in sq_items] + [("spell", c) for c in _MULT] + [("trunc", it) for it in tr_items]
+        + [("live", it) for it in live_items] + [("startup", it) for it in st_items] + [("coll", it) for it in colls]
+    )  # fmt: skip
     res = common.pmap(_dispatch, work, ctx.jobs, chunk=4, init=_init_worker, seed=ctx.seed)
     totals = {"evals": 0, "nontrivial": 0}
     sq_tot = {"evals": 0, "nontrivial": 0}
@@ -817,9 +845,14 @@ def run(ctx):
     json_runs = totals["evals"]
     _merge(ctx, [r for (k, _), r in zip(work, res) if k in ("trunc", "spell")], aux_tot)
     _merge(ctx, [r for (k, _), r in zip(work, res) if k == "sqlite"], sq_tot)
-    for k in ("evals", "nontrivial", "spellings"):
+    _merge(ctx, [r for (k, _), r in zip(work, res) if k in ("live", "startup")], aux_tot)
+    for k in ("evals", "nontrivial", "spellings", "live_sequences", "startup_runs"):
         totals[k] = totals.get(k, 0) + aux_tot.get(k, 0)
-    ctx.log(f"json GC runs: {json_runs} (+{aux_tot['evals']} truncation/spelling), sqlite runs: {sq_tot['evals']}")
+    ctx.log(
+        f"json GC runs: {json_runs} (+{aux_tot['evals']} truncation/spelling/live/start-up; {totals.get('live_sequences', 0)} live sequences, "
+        f"{totals.get('startup_runs', 0)} start-up handshakes), sqlite runs: {sq_tot['evals']}"
+    )
+    ctx.sample({"live_session_sequence": [list(e) for e in seqs[len(seqs) // 2]]})
     for it in common.pick_samples(colls, ctx.seed, 6):
         ctx.sample({"files_oldest_first": [list(s) for s in it[0]], "tie_mask": it[1]})
     ctx.sample({"sqlite_rows": sq_items[-1][0], "tie_mask": sq_items[-1][1], "keep": "0..6", "insert_orders": [list(o) for o in sq_items[-1][2][:3]]})
@@ -831,7 +864,10 @@ def run(ctx):
             "equal-timestamp patterns; boot positions making locks stale) x unit {files,commands,s,b} x every boundary value of the limit "
             "x force, each executed through the real JsonHistory.run_gc on real files (the largest sizes are narrowed as listed under bounds); "
             "plus every truncation length of a genuine file, every "
-            "spelling accepted by to_history_tuple, and SqliteHistory.run_gc on every table of <= 5 rows x tie pattern x insertion order x keep 0..6. "
+            "spelling accepted by to_history_tuple, SqliteHistory.run_gc on every table of <= 5 rows x tie pattern x insertion order x keep 0..6; "
+            f"every sequence (depth <= {live_depths[0]}, plus depth {live_depths[1]} ending 'flush, gc') of {{append+flush, delete / truncate the open session's file, "
+            "GC pass}} on a real open JsonHistory next to two closed sessions; and the real GC thread driven through its wait_for_shell handshake "
+            f"with $XONSH_HISTORY_SIZE changed L1->L2 while it waits, for every ordered pair of boundary limits on collections of <= {startup_nmax} files. "
             "non-trivial = runs where the history exceeds the limit (something must be deleted or the run refused)"
         ),
         exhaustive=True,
@@ -841,7 +877,11 @@ def run(ctx):
         json_runs_that_refused=totals.get("refusals", 0),
         spellings_checked=totals.get("spellings", 0),
         sqlite_runs=sq_tot["evals"],
+        live_session_sequences=totals.get("live_sequences", 0),
+        startup_handshake_runs=totals.get("startup_runs", 0),
         bounds={
+            "live_sequence_depth": list(live_depths),
+            "startup_collection_max_files": startup_nmax,
             "max_files": nmax,
             "command_counts": [0, 1, 2, 3],
             "per_collection_size": {
@@ -887,6 +927,10 @@ def _replay(rec):
     case = rec["case"]
     _init_worker()
     part = case.get("part")
+    if part in ("live-seq", "startup"):
+        from . import c14_live
+
+        return c14_live.replay(case)
     if part == "sqlite":
         rows = [tuple(r) for r in case["rows"]]
         hsq = _W.hsq
